@@ -40,7 +40,7 @@ def gen_cases(tier, seed):
         kind = ["general", "henry", "langmuir-equal", "general", "point", "general"][i % 6]
         if i % 4 == 3:
             kind = "trace-edges"
-        yield {"kind": "mixture", "flavour": kind, "seed": r.randrange(1 << 30), "ncomp": [2, 2, 3, 2, 4, 3][i % 6] if kind != "point" else 2 + (i % 2)}
+        yield {"kind": "mixture", "flavour": kind, "seed": r.randrange(1 << 30), "ncomp": [2, 3, 4, 2, 5, 3, 4][(i // 6) % 7] if kind != "point" else 2 + ((i // 6) % 3)}
     for i in range(12 if tier == "quick" else 400):
         yield {"kind": "helpers", "seed": r.randrange(1 << 30)}
 
@@ -98,6 +98,12 @@ def _point_iso(name, P, i):
     m = GM.make_model(name, P, temperature=298.0)
     ps = numpy.exp(numpy.linspace(math.log(1e-4), math.log(1e4), 400))
     ls = numpy.asarray(m.loading(ps), dtype=float)
+    if i % 2:
+        # with a (hysteretic) desorption branch as well: IAST works on the adsorption branch unless told otherwise
+        pd_ = ps[::-7][1:]
+        ld = numpy.interp(pd_, ps, ls) * 1.15 + 0.01
+        return pygaps.PointIsotherm(pressure=list(ps) + list(pd_), loading=list(ls) + list(ld), branch=[False] * len(ps) + [True] * len(pd_), material="verif-c13p", adsorbate=ADS[i % 4],
+                                    **dict(gen.DEFAULT_UNITS, **gen.temp_kw(298.0)))
     return pygaps.PointIsotherm(pressure=list(ps), loading=list(ls), branch="ads", material="verif-c13p", adsorbate=ADS[i % 4], **dict(gen.DEFAULT_UNITS, **gen.temp_kw(298.0)))
 
 
